@@ -228,6 +228,60 @@ def h_lda_x(env, base):
     env.equal("energy_density_scales_lam^4", e1[0], e0[0] * lam ** 4)
 
 
+def h_convolved_function(env, version, rho_mult, level, plan_kind):
+    """the function the NLDF features are convolutions of (NLDFAuxiliaryPlan.get_function_to_convolve, real code) scales as
+    lambda^(3 + RHO_MULT_USPS[rho_mult]) under n -> lambda^3 n(lambda r), and its derivatives accordingly - whatever the plan's
+    *interpolation argument* is (the exponent itself for the Gaussian plan, a knot index for the spline plan).  Symbolic run: the
+    interpolation argument is an unknown differentiable function Q of the exponent (contract stub); concrete replay: a real
+    NLDFSplinePlan / NLDFGaussianPlan from the freshly compiled library."""
+    from . import c01_l2
+    st = env.m.settings
+    lam = _lam(env)
+    nrho = 3 if level == "MGGA" else 2
+    rho = env.arr("rho", (1, 1), "pos", lo="1/64", hi="64")
+    sig = env.arr("sig", (1, 1), "nonneg", hi="64")
+    tau = env.arr("tau", (1, 1), "nonneg", hi="64")
+    env.eps_zero()
+    if env.sym:
+        from .. import stubs
+        plan, s = c01_l2.make_plan(env, version, level, rho_mult, 1, "gq")
+        if plan_kind == "spline":
+            Q = stubs.LeafFn(env, "interp_index", 1)
+
+            def gia(rho_tuple, i=-1):
+                a, da = plan.eval_feat_exp(rho_tuple, i=i)
+                q = a.copy()
+                for idx in np.ndindex(*a.shape):
+                    q[idx] = Q.val([a[idx]])
+                    for d in da:
+                        d[idx] = d[idx] * Q.grad([a[idx]], 0)
+                return q, da
+            plan._get_interpolation_arguments = gia
+    else:
+        plans = env.m.plans
+        _, s0 = None, None
+        th = [1.0, 0.0, 0.03125] if level == "MGGA" else [1.0, 0.03125]
+        fp = lambda a: ([a, 0.0, 0.04] if level == "MGGA" else [a, 0.04])
+        if version == "j":
+            s = st.NLDFSettingsVJ(level, th, rho_mult, ["se", "se_ar2"], [fp(2.0), fp(1.0)])
+        elif version == "k":
+            s = st.NLDFSettingsVK(level, th, rho_mult, [fp(2.0), fp(1.0)], "exponential")
+        else:
+            s = st.NLDFSettingsVI(level, th, rho_mult, ["se_ap"], ["se_grad"], [(0, 0), (-1, 0)])
+        cls = plans.NLDFSplinePlan if plan_kind == "spline" else plans.NLDFGaussianPlan
+        plan = cls(s, 1, 0.001, 1.8, 40, coef_order="gq")
+    tup = lambda r, g, t: (r.copy(), g.copy(), t.copy())[:nrho]
+    ok, A = env.attempt("returns", lambda: plan.get_function_to_convolve(tup(rho, sig, tau)))
+    if not ok:
+        return
+    B = plan.get_function_to_convolve(tup(rho * lam ** 3, sig * lam ** 8, tau * lam ** 5))
+    usp = st.RHO_MULT_USPS[rho_mult]
+    env.equal("function_scales_as_lam^%d" % (3 + usp), B[0][0, 0], A[0][0, 0] * lam ** (3 + usp))
+    for k, (nm, pw) in enumerate(zip(("rho", "sigma", "tau")[:nrho], (3, 8, 5))):
+        env.equal("d_d%s_scales_as_lam^%d" % (nm, 3 + usp - pw), B[1][k][0, 0], A[1][k][0, 0] * _pw(env, lam, 3 + usp - pw))
+        env.deriv("d_d%s_is_the_derivative" % nm, A[0][0, 0], ({"rho": "rho", "sigma": "sig", "tau": "tau"}[nm], (0, 0)), A[1][k][0, 0])
+
+
 def tasks(tier):
     out = []
     for level in ("MGGA", "GGA"):
@@ -245,6 +299,11 @@ def tasks(tier):
     for spec in list(DOC_KERNEL) + ["se_lapl"]:
         out.append(Task("kernel_power/%s" % spec, h_kernel_power, dict(spec=spec)))
     out.append(Task("misc_powers", h_misc_powers, {}))
+    for version, rm, level, kind in [("j", "expnt", "MGGA", "spline"), ("j", "expnt", "GGA", "gaussian"), ("i", "expnt", "MGGA", "spline"), ("k", "one", "MGGA", "spline")] + \
+            ([(v, rm, lv, kd) for v in ("j", "i", "k") for rm in ("one", "expnt") for lv in ("MGGA", "GGA") for kd in ("spline", "gaussian")] if tier == "thorough" else []):
+        name = "convolved_function/%s/%s/%s/%s" % (kind, version, rm, level)
+        if not any(t.name == name for t in out):
+            out.append(Task(name, h_convolved_function, dict(version=version, rho_mult=rm, level=level, plan_kind=kind), mods="numint", max_paths=64))
     for base in ("lda_x", "gga_x_pbe", "gga_x_chachiyo", "nlda_x_damp"):
         out.append(Task("baseline_power/%s" % base, h_lda_x, dict(base=base)))
     return out
@@ -258,7 +317,7 @@ def prepare(tier):
 META = dict(
     explanation="symbolic execution of the settings / plans / normalisers / baselines with a symbolic scaling factor; z3 decides "
                 "F(scaled input) == lam^u F(input) with u the power the code itself declares",
-    functions=["ciderpress/dft/settings.py: get_cider_exponent(_gga), get_s2, get_alpha, *Settings.get_feat_usps/get_reasonable_normalizer, FeatureSettings.assign_reasonable_normalizer/get_feat_usps, SPEC_USPS, RHO_MULT_USPS",
+    functions=["ciderpress/dft/plans.py: NLDFAuxiliaryPlan.get_function_to_convolve (convolved_function/*)", "ciderpress/dft/settings.py: get_cider_exponent(_gga), get_s2, get_alpha, *Settings.get_feat_usps/get_reasonable_normalizer, FeatureSettings.assign_reasonable_normalizer/get_feat_usps, SPEC_USPS, RHO_MULT_USPS",
                "ciderpress/dft/plans.py: SemilocalPlan.get_feat", "ciderpress/dft/feat_normalizer.py: *.fill_fwd/get_usp, FeatNormalizerList._get_rho_and_inh/get_normalized_feature_vector, get_normalizer_from_exponent_params",
                "ciderpress/dft/baselines.py: lda_x, gga_x_pbe, gga_x_chachiyo, nlda_x_damp"],
     bounds=dict(lam="(1/8, 8) symbolic", sample_points=1, densities="symbolic, above the cutoffs on both sides of the scaling, tau >= tau_W",
